@@ -102,6 +102,20 @@ def work(tier, seed):
                     cfg = to_cfg(base, pc, seed)
                     cfg["groups"] = [{"params": [0, 2], "over": {}}, {"params": [1], "over": over}]
                     units.append({"cfg": cfg, "backend": backend, "mode": False})
+    # two groups with identical parameter shapes and identical scalar options except beta2 (Shampoo's and the grafting
+    # method's): they can share one compiled graph, which must not bake in the first group's constants
+    for bi, base in enumerate(BASE[1:]):
+        for pi, pc in enumerate(PCS[:2]):
+            for backend in ("eager", "aot_eager"):
+                if tier == "quick" and backend != "eager":
+                    continue
+                cfg = to_cfg(base, pc, seed)
+                cfg["shapes"] = [[3, 2], [3, 2]]
+                over = {"betas": [cfg["betas"][0], 0.75]}
+                if cfg["graft"] and len(cfg["graft"]) == 3:
+                    over["graft"] = [cfg["graft"][0], 0.75, cfg["graft"][2]]
+                cfg["groups"] = [{"params": [0], "over": {}}, {"params": [1], "over": over}]
+                units.append({"cfg": cfg, "backend": backend, "mode": False, "masks2": True})
     # float64 parameters with a learning rate that is not representable in float32, and bfloat16 parameters
     for pi, pc in enumerate(PCS):
         for backend in ("eager", "aot_eager"):
@@ -216,7 +230,9 @@ def check(cfg, backend, mode, hist, resume_at=None):
 def run_unit(unit):
     res = {"evals": 0, "transitions": 0, "states": set(), "outcomes": set(), "nontrivial_count": 0, "violations": [], "samples": [], "stats": {"compiled_graphs": 0, "min_graphs_per_run": 10 ** 6}}
     runs = [(h, None) for h in HISTS]
-    if not unit.get("expect_raise"):
+    if unit.get("masks2"):  # two parameters: project the three-parameter masks
+        runs = [([[m[0], m[1]] for m in h], None) for h in HISTS]
+    elif not unit.get("expect_raise"):
         runs.append((H3, 4))  # checkpoint after 4 steps (past the first refresh), resume into fresh optimizers
     for hi, (hist, resume_at) in enumerate(runs):
         msgs, digests, graphs = check(unit["cfg"], unit["backend"], unit["mode"], hist, resume_at)
